@@ -314,10 +314,10 @@ def check_add_slide(ctx, prs, layout, rng, label, lines, impl, metas):
     return slide
 
 
-def check_notes(ctx, prs, slide, label):
+def check_notes(ctx, prs, slide, label, lines=None, impl=None, metas=None):
     case = {"deck": label, "what": "notes"}
     try:
-        had_master = prs.part.part_related_by  # noqa
+        had_notes = slide.has_notes_slide
         ns = slide.notes_slide
     except Exception as e:  # noqa
         ctx.fail("notes-slide-raises", f"{label}: notes_slide raised {type(e).__name__}: {str(e)[:100]}", case)
@@ -336,6 +336,15 @@ def check_notes(ctx, prs, slide, label):
     names = [sp.nvSpPr.cNvPr.get("name") for sp in ph_elms(ns.shapes._spTree)]
     if len(set(names)) != len(names):
         ctx.fail("notes-placeholder-names-not-unique", f"{label}: names {names}", case)
+    if lines is not None and not had_notes and all(sp.tag == "{%s}sp" % P_NS for sp in ph_elms(ns.shapes._spTree)):
+        # the ids and names given to the cloned placeholders, by the Lean model of clone_placeholder / _next_ph_name on the
+        # notes slide's own base names (a new notes slide starts from the template: the shape tree's id 1, no names)
+        bn = basenames(ns.shapes)
+        lines.append("c13.clone %s %s %s %s" % (";".join(f"{enc(a)}/{enc(b)}" for a, b in bn), enc_ints([1]), enc_list([""]),
+                                                ";".join(f"{enc(k[0])}/{k[1]}/{int(k[2])}/{enc(k[3])}" for k in want) or "!"))
+        impl.append(";".join(f"{sp.shape_id}/{enc(sp.nvSpPr.cNvPr.get('name'))}" for sp in ph_elms(ns.shapes._spTree)) or "!")
+        metas.append(dict(case, what="notes placeholders: ids and names"))
+        ctx.count("notes-clone-model-lines")
     mas_rows = [(key_of(sp)[0], xfrm_of(sp)) for sp in ph_elms(nm.shapes._spTree)]
     for ph in ns.placeholders:
         ty = key_of(ph.element)[0]
@@ -415,7 +424,7 @@ def correspond(ctx):
         for layout in layouts[: (4 if ctx.quick else 40)]:
             slide = check_add_slide(ctx, prs, layout, rng, deck.name, lines, impl, metas)
             if slide is not None and rng.random() < 0.3:
-                check_notes(ctx, prs, slide, deck.name)
+                check_notes(ctx, prs, slide, deck.name, lines, impl, metas)
     n_gen = 40 if ctx.quick else 600
     for gi in range(n_gen):
         prs = Presentation()
@@ -450,7 +459,7 @@ def correspond(ctx):
                 if rng.random() < 0.7 and not slide.has_notes_slide:
                     gen_notes_master(rng, prs)
                     ctx.count("generated-notes-master")
-                check_notes(ctx, prs, slide, f"generated#{gi}")
+                check_notes(ctx, prs, slide, f"generated#{gi}", lines, impl, metas)
     # every placeholder type once WITHOUT geometry of its own (all four readings come from the master's counterpart of the
     # mapped type - or are None where the master has none), and once with it: in every run, whatever the seed
     for own in (False, True):
